@@ -569,6 +569,19 @@ func (m *Model) eval(n *N, env *MEnv) res {
 				return r
 			}
 			s, ok := r.v.toS()
+			if r.v.T == "obj" {
+				// an interpolated part stands for its text: a value with its own `S` is asked for
+				// it before the next part is evaluated
+				for j, k := range r.v.K {
+					if k == "S" && r.v.V[j].T == "func" {
+						rr := m.callAs("emb/S", r.v.V[j], []Val{r.v}, nil)
+						if rr.c == cRaise {
+							return rr
+						}
+						s, ok = rr.v.toS()
+					}
+				}
+			}
 			if !ok {
 				known = false
 			}
